@@ -20,6 +20,11 @@ func GenLen(t *rapid.T, big bool) int {
 	if !big {
 		return rapid.OneOf(rapid.IntRange(0, 40), rapid.SampledFrom([]int{0, 1, 2047, 2048, 2049})).Draw(t, "len")
 	}
+	// rarely a content of megabytes (hundreds of copy buffers, thousands of gRPC chunks, more than the
+	// in-memory backlog of a created file holds)
+	if rapid.IntRange(0, 399).Draw(t, "huge") == 0 {
+		return rapid.SampledFrom([]int{1<<20 + 1, 3<<20 - 1}).Draw(t, "hugeLen")
+	}
 	return rapid.OneOf(
 		rapid.SampledFrom(lenBoundaries),
 		rapid.IntRange(0, 100),
